@@ -90,12 +90,20 @@ pub fn cache_world(rng: &mut Rng, thorough: bool, adversarial: bool) -> (Spec, C
                     if rng.chance(0.4) {
                         msgs.push(FrontMsg::D { kind: "S".into(), name: name.clone() });
                     }
-                    if rng.chance(0.4) {
+                    let mut closed_in_batch = false;
+                    if rng.chance(0.5) {
                         msgs.extend(bind_exec(&mut p, &name, np, 0));
+                        if rng.chance(0.3) {
+                            // prepare, use and close in one batch (drivers' one-shot statements)
+                            msgs.push(FrontMsg::C { kind: "S".into(), name: name.clone() });
+                            closed_in_batch = true;
+                        }
                     }
                     msgs.push(FrontMsg::S);
                     p.send(msgs);
-                    names.live.push((name, np));
+                    if !closed_in_batch {
+                        names.live.push((name, np));
+                    }
                 }
                 3..=6 => {
                     // use a statement prepared earlier (possibly on another server connection by now)
@@ -123,11 +131,19 @@ pub fn cache_world(rng: &mut Rng, thorough: bool, adversarial: bool) -> (Spec, C
                     let i = rng.below(names.live.len() as u64) as usize;
                     let (name, _) = names.live.remove(i);
                     let mut msgs = vec![FrontMsg::C { kind: "S".into(), name: name.clone() }];
-                    if rng.chance(0.5) {
+                    if rng.chance(0.6) {
                         let np = rng.range(1, 2) as usize;
                         let sql = stmt_sql(&mut p, None, np, "");
                         msgs.push(FrontMsg::P { name: name.clone(), sql, types: vec![] });
-                        names.live.push((name, np));
+                        if rng.chance(0.5) {
+                            msgs.extend(bind_exec(&mut p, &name, np, 0));
+                        }
+                        if rng.chance(0.2) {
+                            // ... and close it again right away
+                            msgs.push(FrontMsg::C { kind: "S".into(), name: name.clone() });
+                        } else {
+                            names.live.push((name, np));
+                        }
                     }
                     msgs.push(FrontMsg::S);
                     p.send(msgs);
